@@ -125,7 +125,9 @@ def run(fn, arg, k, fl):
             if ''.join(direct.result) != out:
                 flags.append('generate_source-differs-from-visit_Constant')
         canon, kind, val, rest, _ = lex_first(out + k)
-        if '\x00' not in arg:                       # NUL is not expressible in an EdgeQL string
+        # NUL is not expressible in an EdgeQL string; the raw dollar form has no escapes, so it
+        # cannot express the bidi controls the lexer prohibits either
+        if '\x00' not in arg and not (fn == 'D' and any(ord(c) in BIDI for c in arg)):
             if canon == 'err':
                 flags.append('lexer-rejects')
             elif kind != 'S':
@@ -272,6 +274,9 @@ def _model_repr1(c, printable):
     return '\\U%08x' % c
 
 
+SWEEP_VERSION = 2
+
+
 def sweep(outbase):
     import json
     import re
@@ -314,11 +319,13 @@ def sweep(outbase):
     binary = qllex.binary_path()
     cps = [c for c in range(0x110000) if not 0xD800 <= c < 0xE000]
 
+    tok_re = re.compile(rb'"kind":"(\w+)(?:[^"\\]|\\.)*","text":"([0-9a-f]*)","value":(null|\{"t":"\w+","v":"([0-9a-f]*)"\})')
+
     def bulk(mk):
         data = ('\n'.join(mk(c).encode('utf-8').hex() for c in cps) + '\n').encode()
         out = subprocess.run([binary], input=data, stdout=subprocess.PIPE, check=True).stdout.split(b'\n')
         assert len(out) == len(cps) + 1, len(out)
-        return [json.loads(x) for x in out[:-1]]
+        return out[:-1]
 
     with ThreadPoolExecutor(3) as ex:
         f1 = ex.submit(bulk, lambda c: 'a' + chr(c) + ' ' + chr(c))
@@ -328,18 +335,17 @@ def sweep(outbase):
     ralpha, ralnum, rwhite, rprohib = [], [], [], []
     for c, a, b, cc in zip(cps, r1, r2, r3):
         ch = chr(c)
-        toks = a.get('ok') if 'ok' in a else a.get('partial', [])
-        is_alnum = bool(toks) and (toks[0]['kind'] == 'Ident' or toks[0]['kind'].startswith('Keyword')) \
-            and bytes.fromhex(toks[0]['text']).decode() == 'a' + ch
-        is_alpha = is_alnum and len(toks) > 1 and (toks[1]['kind'] == 'Ident') \
-            and bytes.fromhex(toks[1]['text']).decode() == ch
-        proh = 'err' in b
+        chx = ch.encode('utf-8').hex().encode()
+        toks = tok_re.findall(a)
+        is_alnum = bool(toks) and (toks[0][0] in (b'Ident', b'Keyword')) and toks[0][1] == b'61' + chx
+        is_alpha = is_alnum and len(toks) > 1 and toks[1][0] == b'Ident' and toks[1][1] == chx
+        proh = b.startswith(b'{"err"')
         if c in (39, 92):
             proh = False
         white = False
-        if 'ok' in cc:
-            v = bytes.fromhex(cc['ok'][0]['value']['v']).decode()
-            white = v != ch + 'x'
+        if cc.startswith(b'{"ok"'):
+            t3 = tok_re.findall(cc)
+            white = t3[0][3] != chx + b'78'
         if c >= 128:
             if is_alnum:
                 ralnum.append(c)
